@@ -1010,19 +1010,21 @@ fn store_case(rep: &mut Report, scratch: &Scratch, seed: u64, shard: u64, case_n
     type Ops = Vec<(Vec<u8>, Option<Vec<u8>>)>;
     let mut writes: Vec<(String, u64, u64, Ops)> = Vec::new();
     let mut model: Model = BTreeMap::new();
-    let active_log = |root: &Path| -> Option<(String, u64)> {
-        let mut best: Option<(u64, String, u64)> = None;
+    let active_log = |root: &Path| -> Option<(String, u64, u64)> {
+        use std::os::unix::fs::MetadataExt;
+        let mut best: Option<(u64, String, u64, u64)> = None;
         for e in std::fs::read_dir(root).ok()?.flatten() {
             let n = e.file_name().to_string_lossy().to_string();
             if let Some(num) = n.strip_prefix("log.").and_then(|x| x.parse::<u64>().ok()) {
-                let len = e.metadata().map(|m| m.len()).unwrap_or(0);
+                let (len, ino) = e.metadata().map(|m| (m.len(), m.ino())).unwrap_or((0, 0));
                 if best.as_ref().map(|b| num > b.0).unwrap_or(true) {
-                    best = Some((num, n, len));
+                    best = Some((num, n, len, ino));
                 }
             }
         }
-        best.map(|b| (b.1, b.2))
+        best.map(|b| (b.1, b.2, b.3))
     };
+    let mut inode_of: std::collections::HashMap<String, u64> = std::collections::HashMap::new();
     let built = guarded(|| -> Result<(), String> {
         let mut kvs = KeyValueStore::open(sc.cfg.options(&base_s)).map_err(|e| e.to_string())?;
         for step in &sc.steps {
@@ -1048,9 +1050,10 @@ fn store_case(rep: &mut Report, scratch: &Scratch, seed: u64, shard: u64, case_n
                         model.insert(k.clone(), v.clone());
                     }
                     // which log holds it: the newest log that grew
-                    if let Some((name, len)) = active_log(&base) {
+                    if let Some((name, len, ino)) = active_log(&base) {
                         let mut start = writes.iter().rev().find(|w| w.0 == name).map(|w| w.2).unwrap_or(0);
-                        if len <= start {
+                        let new_file = inode_of.insert(name.clone(), ino).map(|old| old != ino).unwrap_or(false);
+                        if len <= start || new_file {
                             // log numbers recur after a reopen: this is a new file under an old name
                             for w in writes.iter_mut().filter(|w| w.0 == name) {
                                 w.0 = format!("{name}#retired");
@@ -1125,6 +1128,53 @@ fn store_case(rep: &mut Report, scratch: &Scratch, seed: u64, shard: u64, case_n
     probes.push(b"never-written".to_vec());
     let work = scratch.path.join(format!("store-{case_no}-damaged"));
     let work_s = work.to_string_lossy().to_string();
+    // the reference is what the undamaged directory answers (the differential oracle of this
+    // property); a directory whose own scan and point reads disagree (the known recovery defect
+    // builds such trees) cannot serve as a reference for scans
+    let _ = std::fs::remove_dir_all(&work);
+    let pristine_scan: Option<Vec<(Vec<u8>, Option<Vec<u8>>)>> = if copy_tree(&base, &work).is_ok() {
+        let r = guarded(|| -> Result<Vec<(Vec<u8>, Option<Vec<u8>>)>, String> {
+            let kvs = KeyValueStore::open(sc.cfg.options(&work_s)).map_err(|e| e.to_string())?;
+            let mut loads: Vec<(Vec<u8>, Option<Vec<u8>>)> = Vec::new();
+            for k in &probes {
+                let mut tomb = false;
+                let v = kvs.load(k, &mut tomb).map_err(|e| e.to_string())?;
+                if v.is_some() {
+                    loads.push((k.clone(), v));
+                }
+            }
+            let (sb, eb): (std::ops::Bound<Vec<u8>>, std::ops::Bound<Vec<u8>>) = (std::ops::Bound::Unbounded, std::ops::Bound::Unbounded);
+            let mut c = kvs.range_scan(&sb, &eb).map_err(|e| e.to_string())?;
+            c.seek_to_first().map_err(|e| e.to_string())?;
+            let mut scan = Vec::new();
+            loop {
+                c.next().map_err(|e| e.to_string())?;
+                match current_real(&c) {
+                    Some(e) => scan.push((e.key, e.value)),
+                    None => break,
+                }
+                if scan.len() > 100_000 {
+                    return Err("scan does not terminate".into());
+                }
+            }
+            drop(c);
+            drop(kvs);
+            let scan: Vec<(Vec<u8>, Option<Vec<u8>>)> = scan.into_iter().filter(|(k, _)| probes.contains(k)).collect();
+            if scan != loads {
+                return Err("the undamaged directory's scan and point reads disagree".into());
+            }
+            Ok(scan)
+        });
+        match r {
+            Ok(Ok(s)) => Some(s),
+            _ => {
+                rep.count("store.pristine_directories_not_usable_as_scan_reference", 1);
+                None
+            }
+        }
+    } else {
+        None
+    };
     for i in 0..budget {
         let (rel, kind) = files[i % files.len()].clone();
         let bytes = match std::fs::read(base.join(&rel)) {
@@ -1238,7 +1288,7 @@ fn store_case(rep: &mut Report, scratch: &Scratch, seed: u64, shard: u64, case_n
                     rep.count("store.harmless", 1);
                     let live: Vec<(Vec<u8>, Option<Vec<u8>>)> = got.iter().filter(|(_, v)| v.is_some()).map(|(k, v)| (k.clone(), v.clone())).collect();
                     let scan_live: Vec<(Vec<u8>, Option<Vec<u8>>)> = scan.into_iter().filter(|(k, _)| probes.contains(k)).collect();
-                    if live != scan_live {
+                    if pristine_scan.is_some() && live != scan_live {
                         rep.violation("c09", &format!("store:{kind}:silent{part}:scan-disagrees-with-loads"), json!({"file": rel, "damage": d.show(), "message": format!("a full scan and the point reads of the damaged store disagree: loads {:?} scan {:?}", live.iter().map(|(k, v)| format!("{}={}", show(k), show(&v.as_ref().unwrap()[..v.as_ref().unwrap().len().min(8)]))).collect::<Vec<_>>(), scan_live.iter().map(|(k, v)| format!("{}={}", show(k), v.as_ref().map(|v| show(&v[..v.len().min(8)])).unwrap_or("x".into()))).collect::<Vec<_>>()), "replay": replay}));
                     }
                 }
